@@ -38,9 +38,9 @@ TOK_POST = [
     ('no-token-contains-a-space',
      'forall(lambda a, p: implies(result[a].start <= p and p < result[a].start + result[a].length, not input[p].isspace()), '
      '0, len(result), 0, len(input))'),
-    ('every-non-space-character-is-covered',
-     'forall(lambda p: implies(not input[p].isspace(), '
-     'exists(lambda a: result[a].start <= p and p < result[a].start + result[a].length, 0, len(result))), 0, len(input))'),
+    ('every-non-space-character-is-covered',     # own[p]: ghost witness, the index of the token that covers position p
+     'forall(lambda p: implies(not input[p].isspace(), 0 <= own[p] and own[p] < len(result) and '
+     'result[own[p]].start <= p and p < result[own[p]].start + result[own[p]].length), 0, len(input))'),
     ('tokens-are-single-separators-or-maximal-words',
      'forall(lambda a: (result[a].length == 1 and sep_char(input[result[a].start])) or '
      '((result[a].start == 0 or not material_char(input[result[a].start - 1])) and '
@@ -52,7 +52,7 @@ TOK_POST = [
 ]
 
 CONTRACTS = [
-    Contract('c16.simple_tokenizer', M + 'simple_tokenizer.py::SimpleTokenizer.tokenize', ['C16'],
+    Contract('c16.simple_tokenizer', M + 'simple_tokenizer.py::SimpleTokenizer.tokenize', ['C16'], returns=TOKLIST,
              params=dict(self=Rec(M + 'simple_tokenizer.py::SimpleTokenizer', {}), input=Str()),
              requires=['len(input) >= 1'],
              loops={0: LoopSpec(invariant=SIMPLE_INV, types={'tokens': TOKLIST}, ghost={'own': Arr('int')})},
@@ -79,4 +79,91 @@ CONTRACTS += [
                        'matches_equal(result, expected_matches([[a1, a2], [b1], [a1, a2]], [ida, idb, idc], [q0, q1, q2]))')],
              note='BOUNDED stand-in: phrases [a1,a2] (inserted twice with two ids) and [b1], query of three tokens; token values and ids '
                   'are symbolic (all equality patterns covered), shapes are fixed'),
+]
+
+NU_INV = [
+    '0 <= i and i <= len(input) and len(chars) == len(input)',
+    'implies(in_token, 0 <= token_start and token_start < i)',
+    _WF,
+    'forall(lambda a, b: implies(a < b, tokens[a].start + tokens[a].length <= tokens[b].start), 0, len(tokens), 0, len(tokens))',
+    'forall(lambda a, p: implies(tokens[a].start <= p and p < tokens[a].start + tokens[a].length, not input[p].isspace()), '
+    '0, len(tokens), 0, len(input))',
+    'forall(lambda a, p: implies(tokens[a].start <= p and p < tokens[a].start + tokens[a].length and '
+    'not (tokens[a].length == 1 and nu_sep_char(input[tokens[a].start])), nu_material_char(input[p])), 0, len(tokens), 0, len(input))',
+    'forall(lambda p: implies(not input[p].isspace(), 0 <= own[p] and own[p] < len(tokens) and '
+    'tokens[own[p]].start <= p and p < tokens[own[p]].start + tokens[own[p]].length), '
+    '0, (token_start if in_token else i))',
+    'implies(in_token, forall(lambda p: nu_material_char(input[p]), token_start, i))',
+]
+NU_POST = [TOK_POST[0], TOK_POST[1], TOK_POST[2], TOK_POST[3],
+           ('word-tokens-consist-of-word-characters-only',
+            'forall(lambda a, p: implies(result[a].start <= p and p < result[a].start + result[a].length and '
+            'not (result[a].length == 1 and nu_sep_char(input[result[a].start])), nu_material_char(input[p])), 0, len(result), 0, len(input))')]
+
+CONTRACTS += [
+    Contract('c16.number_with_unit_tokenizer', M + 'number_with_unit_tokenizer.py::NumberWithUnitTokenizer.tokenize', ['C16', 'C05'],
+             params=dict(self=Rec(M + 'number_with_unit_tokenizer.py::NumberWithUnitTokenizer', init={}), input=Str()),
+             requires=['len(input) >= 1'],
+             loops={0: LoopSpec(invariant=NU_INV, types={'tokens': TOKLIST}, ghost={'own': Arr('int')})},
+             ghost_after={'tokens.append(': 'own = fill(own, tokens[len(tokens) - 1].start, tokens[len(tokens) - 1].start + tokens[len(tokens) - 1].length, len(tokens) - 1)'},
+             ensures=NU_POST),
+]
+CONTRACTS[-1].repair_strings = True
+
+MRES = RecList({'__length': 'int', '__start': 'int', '__canonical_values': 'any', '__text': 'str'}, cls=M + 'match_result.py::MatchResult')
+
+
+def _matcher_setup(I, loc):
+    """The token-level matcher is abstracted by its contract: every reported match lies inside the token list and has
+    at least one token (the latter is the precondition 'no phrase tokenises to the empty list', see DESIGN C16)."""
+    import z3
+    from pyvc import envmodel as E, sorts
+    from pyvc.values import Sym, INT
+
+    def find(I2, a, kw):
+        q = a[0]
+        r = sorts.build(I2, MRES, 'token_matches')
+        from pyvc import lib as _lib
+        n = I2.term(_lib.length(I2, q))
+        k = z3.Int(I2.p.fresh_name('q_m'))
+        st, ln = r.fields['__start'][1], r.fields['__length'][1]
+        I2.p.assume(z3.ForAll([k], z3.Implies(z3.And(k >= 0, k < I2.term(r.n)),
+                                              z3.And(z3.Select(st, k) >= 0, z3.Select(ln, k) >= 1,
+                                                     z3.Select(st, k) + z3.Select(ln, k) <= n))))
+        return r
+    m = E.EnvConfig('matcher', funcs={'find': E.EnvFunc('find', find)})
+    loc['self'].fields['__matcher'] = m
+
+
+CONTRACTS += [
+    Contract('c16.string_matcher.find', M + 'string_matcher.py::StringMatcher.find', ['C16', 'C05'], setup=_matcher_setup,
+             max_recursion=2, modular=[M + 'simple_tokenizer.py::SimpleTokenizer.tokenize'],
+             params=dict(self=Rec(M + 'string_matcher.py::StringMatcher',
+                                  {'__tokenizer': Rec(M + 'simple_tokenizer.py::SimpleTokenizer', {})}),
+                         tokenized_query=Str()),
+             requires=['len(tokenized_query) >= 1'],
+             loops={0: LoopSpec(index='k', types={'result': MRES},
+                                invariant=['0 <= k and len(result) == k',
+                                           'forall(lambda a: result[a].start >= 0 and result[a].length >= 1 and '
+                                           'result[a].start + result[a].length <= len(tokenized_query) and '
+                                           'result[a].text == tokenized_query[result[a].start:result[a].start + result[a].length], '
+                                           '0, len(result))'])},
+             ensures=[('offsets-length-and-text-are-those-of-the-matched-token-run',
+                       'forall(lambda a: result[a].start >= 0 and result[a].length >= 1 and '
+                       'result[a].start + result[a].length <= len(tokenized_query) and '
+                       'result[a].text == tokenized_query[result[a].start:result[a].start + result[a].length], 0, len(result))')],
+             note='token-level matcher abstracted by its contract (matches inside the token list, at least one token long)'),
+]
+
+CONTRACTS += [
+    Contract('c16.matcher.space_only_phrase', M + 'string_matcher.py::StringMatcher.find', ['C16'], max_recursion=2, unroll=8,
+             params=dict(self=Expr('build_string_matcher([" "])'), tokenized_query=Const('a b')),
+             ensures=[('no-extras', 'len(result) == 0')],
+             note='known finding KF-C16-1 (phrase consisting of spaces)'),
+    Contract('c16.matcher.end_to_end.bounded', M + 'string_matcher.py::StringMatcher.find', ['C16'], max_recursion=2, unroll=8,
+             params=dict(self=Expr('build_string_matcher(["us $", "$", "kg"])'), k=Int(0, 3),
+                         tokenized_query=Expr('["5 us $ and 3kg", "us$ 4", "$$", "kg kg us"][k]')),
+             ensures=[('matches-of-the-listed-phrases-at-token-boundaries',
+                       'match_spans(result) == [[(2, 4), (5, 1)], [(0, 3), (2, 1)], [(0, 1), (1, 1)], [(0, 2), (3, 2)]][k]')],
+             note='BOUNDED stand-in (closed evaluation by the engine of the real init/insert/tokenize/find code on four queries)'),
 ]
